@@ -68,13 +68,13 @@ CHECKS = {
    technique='deterministic simulation: in-memory pubsub network, delivery-count model oracle'),
 
  'C20': dict(
-   text='raptor world: real Master, DefaultWorker (request callback, allocator, forked dispatch process + forked call process, result watcher) and Worker dispatchers (function, method, eval, exec, proc, shell) plus the real agent scheduler raptor forwarding; master, worker and every forked request are separate simulated processes with their own os.environ, cwd and stdio; seeded request streams (core/GPU demands, payloads that return, print, raise, change the environment or stdout, sleep on the virtual clock, time out incl. completion == timeout, requests before the master registered) and faults (fork() failing for the dispatch or call process, message delays, stalled threads); oracles: step invariant slot_shared / alloc_shape on every allocation, at quiescence result_count == 1, target_state <=> exit code, routing by mode, (out, err, ret, val, exc) vs. payload truth table, alloc_leak, env_leak / stdio_leak of the worker process and around every dispatcher call (os.environ and sys.stdout before vs. after, in the process which runs the dispatcher), task service calls return exactly once. Sampling, not proof.',
+   text='raptor world: real Master, DefaultWorker (request callback, allocator, forked dispatch process + forked call process, result watcher) and Worker dispatchers (function, method, eval, exec, proc, shell) plus the real agent scheduler raptor forwarding; master, worker and every forked request are separate simulated processes with their own os.environ, cwd and stdio; seeded request streams (core/GPU demands, payloads that return, print, raise, change the environment or stdout, sleep on the virtual clock, time out incl. completion == timeout, requests before the master registered) and faults (fork() failing for the dispatch or call process, message delays, stalled threads); oracles: step invariant slot_shared / alloc_shape on every allocation, at quiescence result_count == 1, target_state <=> exit code, routing by mode, (out, err, ret, val, exc) vs. payload truth table, alloc_leak, env_leak / stdio_leak of the worker process and around every dispatcher call (os.environ and sys.stdout before vs. after, in the process which runs the dispatcher), task service calls return exactly once; in half of the runs executable requests come back from the pilot executor (played by the driver) and must be reported once. Sampling, not proof.',
    ref='4 (C20), 9.6',
    note='trusted: simulator fakes (transport, fork = deep copy with shared IPC objects, per-process environ/cwd/stdio views); master task service (ru.zmq.Server) stubbed; heartbeats not exercised; MPI worker not driven; proc/shell payloads run the real /bin/true, /bin/false, /bin/echo while the calling sim thread holds the baton',
    technique='deterministic simulation with fault injection: seeded request streams + schedule search, allocation step invariant + result truth-table oracle at quiescence'),
 
  'C09': dict(
-   text='full agent world on Slurm node names with a seeded launcher configuration (FORK, MPIRUN +MPT/RSH/CCMRUN/DPLACE, MPIEXEC +MPT with rank file / host file / PALS / -f modes, SRUN old/new, APRUN, IBRUN with/without tasks_per_node, SSH, RSH, CCMRUN; >42-host thresholds): the real scheduler chooses slots, the real executor asks the real find_launcher / get_launch_cmds; a spy records command + referenced files; oracle = reference parser (process count, node multiset or node set, rank-file / cpu-bind pins, ibrun host list offset) vs. the slots, command of a fresh launcher instance (history independence), refusal of multi-rank tasks by single-process methods. The history dimension (order in which tasks reach the one launcher object) is decided by the simulated schedule; the input dimension is seeded generation. Sampling, not proof.',
+   text='full agent world on Slurm node names with a seeded launcher configuration (FORK, MPIRUN +MPT/RSH/CCMRUN/DPLACE, MPIEXEC +MPT with rank file / host file / PALS / -f modes, SRUN old/new, APRUN, IBRUN with/without tasks_per_node, SSH, RSH, CCMRUN, JSRUN by numbers and with ERF file on the ContinuousJsrun scheduler, PRTE with 1-3 DVMs; >42-host thresholds; left-over files of an earlier generation): the real scheduler chooses slots, the real executor asks the real find_launcher / get_launch_cmds; a spy records command + referenced files; oracle = reference parser (process count, node multiset or node set, rank-file / cpu-bind pins, ibrun host list offset) vs. the slots, command of a fresh launcher instance (history independence), refusal of multi-rank tasks by single-process methods. The history dimension (order in which tasks reach the one launcher object) is decided by the simulated schedule; the input dimension is seeded generation. Sampling, not proof.',
    ref='4 (C09)',
    note='trusted: reference command parsers (written from the launchers documented syntax), simulator fakes; launcher binaries are not executed; JSRUN ERF host numbers are compared with the node index of the placement (base 0 or 1 not decided); PRTE DVM start-up not driven (launcher initialised from a registry record)',
    technique='deterministic simulation: randomised launcher configuration in the full agent world, reference-parser oracle + fresh-instance differential'),
